@@ -101,6 +101,28 @@ func (t *fnTrans) atEntry() {
 		hn := t.h.reg("ghost:"+k+".n", "Int")
 		t.assume(eq(t.h.get(t.cur, hn), "0"))
 	}
+	for _, st := range t.sites {
+		if strings.HasPrefix(st, "select#") {
+			hv := t.h.reg("ghost:sel:"+st, "Int")
+			t.assume(eq(t.h.get(t.cur, hv), "(- 2)"))
+		}
+	}
+	if t.contract != nil {
+		for _, sls := range t.contract.atSet {
+			for _, sl := range sls {
+				if i := strings.Index(sl.text, "="); i > 0 {
+					name := strings.TrimSpace(sl.text[:i])
+					rhs := strings.TrimSpace(sl.text[i+1:])
+					srt, zero := "Int", "0"
+					if rhs == "true" || rhs == "false" || strings.ContainsAny(rhs, "=<>!&|") {
+						srt, zero = "Bool", "false"
+					}
+					hv := t.h.reg("ghost:u:"+name, srt)
+					t.assume(eq(t.h.get(t.cur, hv), zero))
+				}
+			}
+		}
+	}
 	t.contractEntry()
 	if t.g.canary && t.contract != nil {
 		// vacuity guard: `false` must be refutable under the preconditions and invariants
@@ -364,11 +386,35 @@ func (t *fnTrans) enterLoop(b *ssa.BasicBlock, li *loopInfo) {
 			vars[m] = true
 		}
 	}
+	if t.contract != nil {
+		// user ghost variables updated inside the loop are loop-carried
+		for in, site := range t.sites {
+			if li.blocks[in.Block()] {
+				for _, sl := range t.contract.atSet[site] {
+					if i := strings.Index(sl.text, "="); i > 0 {
+						vars["ghost:u:"+strings.TrimSpace(sl.text[:i])] = true
+					}
+				}
+			}
+		}
+	}
 	t.havocLoop(all, vars)
 	for _, phi := range phis {
 		t.freshVal(phi)
 		t.locs[phi] = nil
 		delete(t.locs, phi)
+	}
+	// select indices: a select inside the loop has not run yet in this iteration; others keep their value
+	for in, st := range t.sites {
+		if !strings.HasPrefix(st, "select#") {
+			continue
+		}
+		hv := t.h.reg("ghost:sel:"+st, "Int")
+		if li.blocks[in.Block()] {
+			t.h.set(t.cur, hv, "(- 2)")
+		} else {
+			t.h.set(t.cur, hv, t.h.get(entryState, hv))
+		}
 	}
 	t.siteState[fmt.Sprintf("loop%d:head", li.ord)] = t.cur
 	t.cur = t.h.child(t.cur)
@@ -380,8 +426,8 @@ func (t *fnTrans) enterLoop(b *ssa.BasicBlock, li *loopInfo) {
 // which lock.balance@backedge checks.
 func (t *fnTrans) havocLoop(all bool, vars map[string]bool) {
 	keepGhost := func(hv string) bool {
-		if hv == sharedHV {
-			return !vars[sharedHV]
+		if hv == sharedHV || strings.HasPrefix(hv, "ghost:u:") {
+			return !vars[hv]
 		}
 		return hv == "held" || hv == "rheld" || hv == ownHV || t.g.ann.immutableHV[hv]
 	}
